@@ -8,6 +8,7 @@ import vlib
 import proc
 import world
 import worldscen as ws
+import cmdline
 import gen_rules
 import confshape
 
@@ -660,6 +661,7 @@ def run(rep):
         rep.violation({'obligation': 'correspondence yylex (parse.y) <-> Model/Lex.lean, token by token under the real parser', 'disagreements': len(corr_bad),
                        'examples': corr_bad[:6]}, False)
     dconf.conclude('config_parse (parse.y, bison) <-> Model/Conf.lean parseConfig: accept/reject, first diagnostic line, trees, yylex calls')
+    rep.coverage['command_line'] = cmdline.stage(rep, sc, tools, W)      # argument vectors and environments: refused => exit 1 and no call (tools/cmdline.py)
     vlib.lean_conclude(rep)
     rep.coverage.update({
         'evaluations': len(texts) + len(results),
